@@ -12,414 +12,528 @@ Definition show_fres (r : fres) : string :=
   end.
 Definition check (rs : list rune) : string := digest (show_fres (format_res rs)).
 Definition full (rs : list rune) : string := show_fres (format_res rs).
-Eval vm_compute in ("<<<M320>>>" ++ check (runes_of_ascii "packet
-    /// triple
-    a1 { @rightPad ( ' ' ) @tag( 255
-)
-@lengthOf( zchar ) string MetaDataX	@calculatedFrom( ""CRC32"" ) // a // b
-`crlf
-line` ,u8 A @lengthOf( charz
-    ) ,
-    body ,@rightPad
-    ( '0'	)@lengthOf( charz ) match repeatCount as
-    Z9_ { 0123456789 : metadata // @lengthOf(
-,""" ++ [233]%N ++ runes_of_ascii "t" ++ [233]%N ++ runes_of_ascii """ : float  ,// packet A { u8 x, }
-""1"": Logon ,// " ++ [27880; 37322]%N ++ runes_of_ascii "
-},
-x_y_z`" ++ [233]%N ++ runes_of_ascii "`//x
-, @calculatedFrom(	""1"")match Header  as body
-    { 4294967296
-// @lengthOf(
-// @lengthOf(
-: MetaDataX
-,
-""abc"" //x
-: packetx
-    }
-, x_y_z @calculatedFrom( ""\" ++ [233]%N ++ runes_of_ascii """ ),i64_  @calculatedFrom(""abc"")`
-`,
-@rightPad //	t
-(
-)
-    //	t
-    char
-    float
-@lengthOf(	trueish )
-, @tag(42 ) @leftPad ( '\x00' ) @calculatedFrom(	""\n"") repeat string
-tag, //x
-} packet
-tag { repeat T u `
-` , string u128 @calculatedFrom( // `tick` ""quote"" 'q'
-""packet"" )`u8 x,` ,
-// trailing space 
-//x
-repeat
-    f64
-stringy `" ++ [233]%N ++ runes_of_ascii "` , u32 leftPad  @lengthOf(float ) , uint32	i8i8
-@lengthOf( f32a
-) , int@calculatedFrom( """ ++ [233]%N ++ runes_of_ascii "t" ++ [233]%N ++ runes_of_ascii """ )
-    ,
-    // c
-    @calculatedFrom( ""\n""
-) @leftPad
-    ( '\x00') @rightPad
-    ()
-    repeat
-pack  `// not a comment` , @calculatedFrom( ""1""	)
-    char[]  string_
-,f64 calculatedFrom
-    @lengthOf(	pack)  `tab	here`,@tag(00 ) int8 tag
-    ,
-} options { f32a
-= ""a	b"" _x = false ; _x = '0' o= false /// triple
-} packet falsey
-    /// triple
-    { @tag(
-    // trailing space 
-    007 ) string falsey,
-i64_
-@lengthOf(crc),repeat // c
-u128 body// packet A { u8 x, }
-, char[ 00]roots,/// triple
-metadata @lengthOf(packetx // `tick` ""quote"" 'q'
-)
-    `
-`	,// trailing space 
-string_
-BodyLength, @calculatedFrom(
-""it's"" ) repeat matchKey ,
-metadata
-    @calculatedFrom( ""abc""
-)// @lengthOf(
-,
-@tag( 255 )repeat
-Pad
-    {
-char[] packetx ,repeat o { int16 charz
-    // packet A { u8 x, }
-    ,packetx {
-i8
-//
-// packet A { u8 x, }
-zchar ,} ,char[10 //x
-]x
-, repeat zchar[ 0123456789 ]
-pack , // c
-} ,	int ,
-i8 asx ,
-}
-,}
-packet leftPad
-    { @tag(255
-    /// triple
-    )repeat uint16 msg_type  ,
-    // c
-    f32  trueish @calculatedFrom("""" )	`two words` // `tick` ""quote"" 'q'
-, @leftPad( '\x00' ) @lengthOf( leftPad
-) // a // b
-@lengthOf( asx // a // b
-)
-    //	t
-    zchar[ 1] roots @calculatedFrom(
-""abc""
-) ,pack @lengthOf(
-Z9_ ), @tag(
-65535) @lengthOf(Header
-    ) // c
-f64 tag , @tag( 1
-)repeat
-    u8x, match stringy// c
-as x { ""it's"" // " ++ [27880; 37322]%N ++ runes_of_ascii "
-: Z9_ ,7 : u128 ,
-""// no comment"" :trueish, 00
-:
-    //	t
-    f32a ,
-    [3,  1, 00]:	pack,""" ++ [28040; 24687]%N ++ runes_of_ascii """
-    // trailing space 
-    : options1	,
-// `tick` ""quote"" 'q'
-//x
-} ,
-repeat // `tick` ""quote"" 'q'
-u128 { repeat
-crc
-{ int16	int ,  }
-// c
-// @lengthOf(
-, }
-    // @lengthOf(
-    , @leftPad ( ' '  ) // trailing space 
-repeat
-zchar[ 255 ]
-// " ++ [128512]%N ++ runes_of_ascii " emoji
-// `tick` ""quote"" 'q'
-int `crlf
-line` ,@tag( 1 ) Logon roots
-    `// not a comment` , }
-")).
-Eval vm_compute in ("<<<M1603>>>" ++ check (runes_of_ascii "MetaData Pad 
-{
+Eval vm_compute in ("<<<M1557>>>" ++ check (runes_of_ascii "
 
-char[]  Packet
-    ,
-    f32a i64_	`tab	here` 
-  // c
-	  // a // b
-
-,}
-	root
-	packet As{ @calculatedFrom(""CRC32"" )	@calculatedFrom(""1"")
-    @calculatedFrom(
-""// no comment""
-// a // b
-      //
-      )  As
-As
-`say ""hi""`
-,  Foo
-	msg_type,	calculatedFrom 
-@calculatedFrom(
-""\n""  ) , zchar { zchar[
-
-    7 ]
-charz // `tick` ""quote"" 'q'
-      @calculatedFrom( ""x y""
-
-)	, Z9_ 
-`{ , }` ,
-
-repeat int{
-	zchar[
-3]
-    i8i8 @lengthOf(  chars),  match
-
-zchar
-    as 
-o
-{1
-	://
-    	u128,	0	:
-// trailing space 
-//x
-    	stringy,  42  : charz
-""x y""  :a1
-3
-
-    : 
-Header ,
-
-    4294967296 :o
-
-    } 
-,
-
-    repeat
-    Header
-`two words` 
-,match
-u8x
-as u8x
-{[	10
-    ]:
-
-pack
-	, 1  : 
-BodyLength
-//
-    // " ++ [27880; 37322]%N ++ runes_of_ascii "
-    0
-: MetaDataX
-
-, 42: 
-calculatedFrom
-} ,
-} 	 /// triple
-    	,
-}	,	// " ++ [27880; 37322]%N ++ runes_of_ascii "
-} 
-
-    // `tick` ""quote"" 'q'
-
-	/// triple
-  packet i64_
-{}
-    root	packet x
-{ Header {
-
-    char[/// triple
-	0
-
-    ]
-_x	`// not a comment`	,
-    } ,  @lengthOf(
-A )	uint32
-
-f32a@calculatedFrom(  ""abc"" )  
-      // `tick` ""quote"" 'q'
-  // " ++ [27880; 37322]%N ++ runes_of_ascii "
-    	,
-    repeat
-
-i16 
-trueish
-
-`u8 x,`
-	,  @rightPad
-	(
-' ' 
-) @calculatedFrom(
-	""a\\""
-) float
-,repeat	char[7	]	zchar	, @tag(  10 )
-	repeat  
-  //	t
-  	a1
-
-    falsey
-	`say ""hi""` , @lengthOf( len
-) repeat
-	zchar[ 
-00
-    // `tick` ""quote"" 'q'
-  ]
-uint8x,
-}MetaData
-metadata	{ u8 
-body
-,	}
-")).
-Eval vm_compute in ("<<<M1935>>>" ++ check (runes_of_ascii "
-// top
-		packet	// c0a
-    // c0b
-
-	A
-
-{// c2
-    u8  // c3a
-// c3b
-	  a
-    , // c5
-}// c6a
-    	// c6b
-  packet 	 // c7a
-    // c7b
-    B { 
+  // top
+  options  // c0
+	{ 	 // c1
+	FixedStringPadFromLeft=	// c3a
+  	// c3b
+true
+    // c4
+	;
+        // c5
+  FixedStringPadChar// c6
+  	=  // c7
+    '0'
+    // c8
+    	;
 	    // c9
-u16 b 	 // c11
-      ,
-}	// c13a
-// c13b
-  packet 	 // c14
-  	C 
-	// c15
-	{ 
-        // c16
-	u32
-    // c17
-	c// c18
 
-	,// c19a
-  // c19b
-  } 
-      // c20
-	  root packet // c22a
-	  // c22b
-  	M 	 // c23
-{
-	u16 Kc 
-        // c26
-  ,
-    // c27
+}	// c10
 
-u16 // c28a
-	// c28b
-		Kb 
-,  // c30
-	u16
+	packet	// c11
+		Leg 	 // c12
+  	{ 
+    // c13
+repeat // c14
+  InSym93
+// c15
+{ 
+      // c16
+    zchar[
+        // c17
+      3	// c18
 
-    Ka 
+	]
+// c19
+    Acct
 
-// c32
+// c20
+    	, 
+      // c21
 
-,
+  string  // c22
+	  Side2  // c23a
+		// c23b
+  , // c24
+	i32
+	Flags
+	,
+	// c27
+  f32  // c28
+      Note // c29a
 
-match // c34a
-    // c34b
-Kc 	 // c35
-    as
-X
+	// c29b
+      , 	 // c30a
+    // c30b
+i32
+// c31
+	msgKind	// c32a
+// c32b
+  	,
+
+} // c34
+    	, 
+// c35
+		f64  // c36a
+    // c36b
+Note
     // c37
 
-{ 
-    // c38
-	9 // c39
+,	// c38
+
+	uint16 
+  // c39
+    	Px  // c40
+  ,	// c41a
+	// c41b
+  } 
+      // c42
+  packet
+	// c43
+		Quote	// c44a
+
+// c44b
+
+	{	// c45a
+    // c45b
+  zchar[  // c46
+	  2]  // c48a
+	// c48b
+OrderId
+	// c49
+		,
+
+    } // c51
+
+  packet
+
+Ack	// c53
+	{	// c54a
+  	// c54b
+  repeat	// c55a
+    // c55b
+  string	// c56a
+// c56b
+		lastPx
+	,
+    // c58
+      zchar[  // c59a
+	  // c59b
+  4// c60
+] 
+    // c61
+  price , uint32
+
+OrderId // c65a
+// c65b
+  , 	 // c66
+  Quote  
+      // c67
+	  ,
+        // c68
+int8	// c69a
+  // c69b
+	  Acct
+    // c70
+  , 
+      // c71
+  } packet Fill 
+        // c74
+  {
+	// c75
+	repeat 
+
+// c76
+  	Leg // c77
+	,	// c78a
+
+  // c78b
+	@rightPad  // c79a
+
+	// c79b
+  ('0' 	 // c81a
+
+	// c81b
+  ) 	 // c82
+char[
+	// c83
+  11
+    // c84
+	]
+    // c85
+
+Note
+
+    ,// c87a
+		// c87b
+		f64
+// c88
+  Px  ,
+// c90
+      @rightPad  // c91a
+	  // c91b
+	(// c92
+
+'\x00' 
+        // c93
+      )// c94a
+
+	// c94b
+    char[ 	 // c95a
+	  // c95b
+
+  5// c96
+      ]// c97a
+    // c97b
+  	Flags// c98
+	,zchar[ // c100a
+	// c100b
+  	9 	 // c101a
+  // c101b
+    ] 	 // c102
+	  x // c103
+    ,	// c104a
+    // c104b
+string // c105a
+// c105b
+    msgKind 	 // c106
+	,
+}// c108
+	root
+    packet  // c110a
+
+	// c110b
+    Order 	 // c111a
+	// c111b
+
+	{ 	 // c112
+  	Leg 	 // c113
+  ,// c114a
+	// c114b
+  repeat	// c115
+	Ack	// c116
+	  , @rightPad
+    (  // c119a
+  	// c119b
+	  '\x00'// c120
+  ) 
+char[ 
+      // c122
+3
+	] // c124a
+  // c124b
+	  Side2
+	    // c125
+
+	,// c126
+
+	repeat  
+  // c127
+  char[
+// c128
+	1	// c129a
+		// c129b
+    ] 	 // c130
+seqNo
+        // c131
+
+  ,  // c132
+u16	// c133
+
+  clOrdID 
+// c134
+    ,// c135a
+// c135b
+	match  
+      // c136
+	clOrdID// c137
+as Body
+        // c139
+	  { 
+    // c140
+      198	// c141a
+  	// c141b
+      : 	 // c142
+Leg // c143a
+
+// c143b
+  	, // c144a
+  // c144b
+	23
+	:
+
+    // c146
+
+	Quote  // c147a
+  // c147b
+
+,	// c148
+	13// c149a
+  // c149b
+	  : 	 // c150a
+	// c150b
+  Ack  // c151
+      , 
+// c152
+
+159 
+    // c153
     :  
-      // c40
-  A
-	// c41
-  , 10
-: 
-    // c44
-    	B 
-	// c45
-  	, 
-        // c46
-	}
+  // c154
+	Fill 	 // c155a
+  // c155b
+	, 
+// c156
+  } 
+, u32
+venue  // c160
 
-,  match 
-// c49
-  Kb// c50
-	as 	 // c51a
-    // c51b
-	  Y // c52
-  {2 	 // c54a
-
-// c54b
-		:
-	    // c55
-    	C
-
-    ,// c57
-1 	 // c58
-    : A  ,  // c61a
-  	// c61b
-    	}// c62
-
-	, // c63a
-	  // c63b
-  	match
-        // c64
-	Ka  as  // c66
-    Z 	 // c67
-{ 
-
-// c68
-    	1  // c69a
-// c69b
-  :
-B 	 // c71a
-
-  // c71b
-  ,// c72
-    }// c73a
-
-// c73b
-, 	 // c74
-
-A  // c75a
-      // c75b
-    ,  // c76
-  B 
-	    // c77
-    	,  
-  // c78
-
-	C
-,// c80
-    	}
+@calculatedFrom( // c161a
+    // c161b
+""CRC32""	// c162
+		) // c163a
+  // c163b
+	,
+// c164
+    } // c165a
+		// c165b
 ")).
+Eval vm_compute in ("<<<M1620>>>" ++ check (runes_of_ascii "
+
+  packet
+
+    _x
+
+{
+leftPad
+	`it's`	,
+
+    match
+Logon
+
+as
+    matchKey
+	{
+	""packet""
+    :  stringy ,
+
+    3
+
+    :
+u,//
+  ""1"" :
+Pad
+	}	,
+
+    float32 Z9_	@lengthOf( i8i8
+
+    ) `" ++ [233]%N ++ runes_of_ascii "`
+
+// " ++ [27880; 37322]%N ++ runes_of_ascii "
+  ,@tag( 3  )
+	match 
+  //	t
+    As as Pad 
+{""""
+:chars,""x y""	//
+    :	i64_ ,
+	}
+    , @calculatedFrom(  ""it's""  // c
+	)
+	@leftPad
+(
+    ' ')
+
+zchar[ 
+0123456789
+
+]falsey
+    , match 
+A as	packetx
+    { [  42 ]
+:
+
+matchKey 	 // c
+  , }  // `tick` ""quote"" 'q'
+
+	,
+@leftPad (
+
+    ' ') match
+x
+    // c
+	as a1
+
+    {
+
+""packet"" 	 //x
+    :  a1
+    ,	10 :
+pack  ""{,}""
+    :
+	u8x  // a // b
+	,
+[ 007 , 
+00 // trailing space 
+]
+
+    : trueish, 
+""x y"":	pack 	 //	t
+  ,
+
+    """ ++ [233]%N ++ runes_of_ascii "t" ++ [233]%N ++ runes_of_ascii """ :matchKey ,
+}
+,
+@leftPad 
+(
+	'0' ) uint8x
+
+u
+,
+zchar[
+	3 // a // b
+	] 
+//	t
+  	u `` ,
+
+@rightPad
+	( 
+' '
+	) repeat	_x
+	``  ,  }MetaData
+
+Foo{ a1 Z9_
+,
+
+options1  T,
+
+u32
+    u8x	`crlf
+line`
+,  metadata
+falsey
+	, lengthOf
+x_y_z , }
+
+packet
+calculatedFrom
+{
+@tag(
+3 )string
+
+    A
+
+, match leftPad as
+	a1 
+{	//	t
+0123456789  :
+	calculatedFrom	,	}
+,
+match
+crc //
+
+as
+	body {00: _x ,	}
+,
+
+o@calculatedFrom(""x y"") 
+  //
+    // " ++ [128512]%N ++ runes_of_ascii " emoji
+	,
+
+    }  packet
+
+    T
+
+    { } packet 
+Logon
+    { @leftPad
+( 	 // @lengthOf(
+    '\x00') As	@calculatedFrom(
+
+""a	b""
+    )
+    `line1
+line2`
+
+    ,
+
+pack lengthOf	// `tick` ""quote"" 'q'
+    	, }	// `tick` ""quote"" 'q'")).
+Eval vm_compute in ("<<<M282>>>" ++ check (runes_of_ascii "// a // b
+packet stringy	{
+string zchar ,
+    repeat T
+, match
+u
+as  charz {
+007
+    //x
+    :
+//	t
+// @lengthOf(
+float// trailing space 
+,""\" ++ [233]%N ++ runes_of_ascii """ : Logon ""a	b"":
+//	t
+//	t
+pack, } , match uint8x as
+    // " ++ [27880; 37322]%N ++ runes_of_ascii "
+    roots
+{
+1
+    // `tick` ""quote"" 'q'
+    : len
+,	}
+//x
+// " ++ [27880; 37322]%N ++ runes_of_ascii "
+, }packet zchar {	roots options1
+    //x
+    `// not a comment` , int64 As
+,
+    i16 float
+    @lengthOf( falsey
+    // " ++ [27880; 37322]%N ++ runes_of_ascii "
+    ) `a\`
+    , int64 msg_type `tab	here`
+, @tag(0
+    // `tick` ""quote"" 'q'
+    ) repeat uint8x ,
+    @lengthOf(x
+    ) repeat metadata
+    , zchar[ 0 ]	int , uint64
+    zchar ,zchar[7 // " ++ [27880; 37322]%N ++ runes_of_ascii "
+]
+msg_type
+,
+@calculatedFrom(
+/// triple
+// " ++ [27880; 37322]%N ++ runes_of_ascii "
+""" ++ [28040; 24687]%N ++ runes_of_ascii """ ) crc
+, }
+root packet zchar { repeat
+leftPad,
+} packet
+A{
+@lengthOf(
+    string_ )	x@lengthOf( options1) `two words`,  string
+len ,	}packet	falsey{ i64_ @calculatedFrom(	""{,}"" ) , repeat
+string chars
+, zchar[ 7]calculatedFrom
+, Header
+    { char u`two words`, repeat char[] // c
+tag
+    `say ""hi""`	, Z9_
+    @lengthOf(
+T ) `line1
+line2` , } , msg_type @calculatedFrom( ""// no comment""
+    ) , @rightPad (// packet A { u8 x, }
+'\x00' )
+@lengthOf( asx )
+falsey
+,
+    } // packet A { u8 x, }")).
 Eval vm_compute in ("<<<M174>>>" ++ check (runes_of_ascii "
 root packet asx { leftPad
     {u128 @calculatedFrom( ""1""
@@ -471,93 +585,63 @@ zchar[
     }root  packet
 f32a
     { }")).
-Eval vm_compute in ("<<<M1386>>>" ++ check (runes_of_ascii "// top
-options
-    // c0
-{
-    // c1
-LittleEndian // c2a
-  // c2b
-=
-    // c3
-true // c4a
-  // c4b
-; } // c6a
-  // c6b
-packet // c7a
-  // c7b
-Logon // c8a
-  // c8b
-{ u8
-    // c10
-x // c11a
-  // c11b
-,
-    // c12
+Eval vm_compute in ("<<<M1514>>>" ++ check (runes_of_ascii "options {
+    FixedStringPadFromLeft = true;
+    FixedStringPadChar = '0';
 }
-    // c13
-packet
-    // c14
-Logout
-    // c15
-{ // c16
-u16 reason // c18a
-  // c18b
-, } // c20
-root // c21
-packet Frame // c23
-{ // c24a
-  // c24b
-u64
-    // c25
-Kind , // c27
-u64 Kind2 // c29
-, match Kind // c32
-as // c33
-Body
-    // c34
-{
-    // c35
-1 : // c37a
-  // c37b
-Logon ,
-    // c39
-[ // c40a
-  // c40b
-2 , // c42a
-  // c42b
-3 // c43a
-  // c43b
-, // c44
-4 // c45a
-  // c45b
-] // c46a
-  // c46b
-:
-    // c47
-Logout
-    // c48
-, // c49
-100 : // c51
-Logon
-    // c52
-, // c53
-} // c54
-, match // c56a
-  // c56b
-Kind2 // c57
-as // c58
-Trailer
-    // c59
-{ // c60a
-  // c60b
-0 : // c62
-Logout
-    // c63
-, // c64
-} // c65
-, } ")).
-Eval vm_compute in ("<<<M1427>>>" ++ check (runes_of_ascii "
+
+packet Leg {
+    repeat InSym93 {
+        zchar[3] Acct,
+        string Side2,
+        i32 Flags,
+        f32 Note,
+        i32 msgKind,
+    },
+    f64 Note,
+    uint16 Px,
+}
+
+packet Quote {
+    zchar[2] OrderId,
+}
+
+packet Ack {
+    repeat string lastPx,
+    zchar[4] price,
+    uint32 OrderId,
+    Quote,
+    int8 Acct,
+}
+
+packet Fill {
+    repeat Leg,
+    @rightPad('0')
+    char[11] Note,
+    f64 Px,
+    @rightPad('\x00')
+    char[5] Flags,
+    zchar[9] x,
+    string msgKind,
+}
+
+root packet Order {
+    Leg,
+    repeat Ack,
+    @rightPad('\x00')
+    char[3] Side2,
+    repeat char[1] seqNo,
+    u16 clOrdID,
+    match clOrdID as Body {
+        198 : Leg,
+        23 : Quote,
+        13 : Ack,
+        159 : Fill,
+    },
+    u32 venue @calculatedFrom(""CR\
+    C32""),
+}")).
+Eval vm_compute in ("<<<M1428>>>" ++ check (runes_of_ascii "
 // a // b
 
 packet
@@ -641,347 +725,380 @@ lengthOf
 // trailing space 
  
 ")).
-Eval vm_compute in ("<<<M1700>>>" ++ check (runes_of_ascii "packet options1 {
-    @leftPad('0')
-    @rightPad('\x00')
-    @tag(255)
-    /// triple
-    repeat string As `
-    `,
-    @calculatedFrom("""")
-    @calculatedFrom(""x y"")
-    a1 {
-        Foo {
-            trueish {
-                tag @lengthOf(i8i8) `doc`,
-            },
-            zchar[00] f32a @lengthOf(calculatedFrom),
-            repeat zchar[1] stringy `{ , }`,
-        },
-        uint64 repeatCount @lengthOf(asx),
-        char[42] lengthOf @calculatedFrom(""packet""),
-        char[10] calculatedFrom @lengthOf(BodyLength),
+Eval vm_compute in ("<<<M1363>>>" ++ check (runes_of_ascii "options {
+    StringPrefixLenType = u8;
+    ArrayPrefixLenType = u32;
+    FixedStringPadFromLeft = true;
+    FixedStringPadChar = ' ';
+}
+packet Leg {
+}
+packet Heartbeat {
+    zchar[6] msgKind,
+    @rightPad('0') char[3] Qty,
+    zchar[9] Side2,
+    i8 Acct,
+}
+packet Logout {
+    int8 x,
+}
+packet Order {
+    char[] Acct,
+    zchar[8] count,
+    u32 OrderId,
+    uint8 lastPx,
+    u16 clOrdID,
+    zchar[7] Note,
+}
+root packet Reject {
+    @leftPad(' ') char[8] Side2,
+    i8 clOrdID,
+    repeat f32 x,
+    u32 lastPx,
+    match lastPx as Body {
+        [30, 147] : Heartbeat,
+        134 : Leg,
+        183 : Logout,
+        40 : Order,
     },
-    asx `// not a comment`,
+    u16 Ref @calculatedFrom(""CR\
+C32""),
 }
-
-options {
-    matchKey = """ ++ [128512]%N ++ runes_of_ascii """
-    falsey = ""a\""b"";
-    A = ""CRC32""
-    msg_type = """ ++ [233]%N ++ runes_of_ascii "t" ++ [233]%N ++ runes_of_ascii """;
-}
-
-MetaData o {
-}
-
-packet Pad {
-}")).
-Eval vm_compute in ("<<<M227>>>" ++ check (runes_of_ascii "packet	crc
-    { @lengthOf(Header )	repeat roots
-    // @lengthOf(
-    `a\` ,
-@lengthOf( tag ) match x as string_{ [ ""a\\"" , ""packet""
-] : Header""// no comment""
-    /// triple
-    :
-Logon , 7:
-falsey ,7  : metadata [ 7  , 00] :
-    // `tick` ""quote"" 'q'
-    repeatCount 3 : u ,
-},
-    //	t
-    @lengthOf( u128
-//
-// " ++ [27880; 37322]%N ++ runes_of_ascii "
-) @rightPad
-(
-'\x00' // c
-)
-char[] int ,int16 Packet @lengthOf(  string_
-    ) , trueish{ repeat
-crc {zchar
-calculatedFrom , } ,
-} ,
-// @lengthOf(
-//x
-@rightPad
-( ) repeat
-    _x pack // " ++ [27880; 37322]%N ++ runes_of_ascii "
-, @lengthOf(
-// c
-// trailing space 
-chars)repeat
-    string_ {repeat
-    uint8x`// not a comment`,}
-, }")).
-Eval vm_compute in ("<<<M1916>>>" ++ check (runes_of_ascii "
+")).
+Eval vm_compute in ("<<<M206>>>" ++ check (runes_of_ascii "//x
 root
-	    // " ++ [27880; 37322]%N ++ runes_of_ascii "
-  // @lengthOf(
-    packet Packet{ string  o@calculatedFrom(
-""\" ++ [233]%N ++ runes_of_ascii """
-	) , @lengthOf(
-
-    Packet
-        // packet A { u8 x, }
-)
-
-    body
-@calculatedFrom( 	 // @lengthOf(
-	  ""x y""
-)
-
-    `it's`
-, float64
-	As
-@calculatedFrom(  ""`tick`""
-	)	,
-    char[]
-
-    stringy @calculatedFrom( """ ++ [28040; 24687]%N ++ runes_of_ascii """  ) `doc`	,
-
-    @calculatedFrom( ""a	b""
-    )  match
-float as
-o 
-{ [""" ++ [128512]%N ++ runes_of_ascii """
-,
-	007
-	]
-
-    :
-metadata
-
-,}
-,
-
-f32a
-    a1  `a\`
-
-    , 
-}MetaData
-    repeatCount
-	{packetx
-	i64_`" ++ [28040; 24687; 31867; 22411]%N ++ runes_of_ascii "` ,  // " ++ [128512]%N ++ runes_of_ascii " emoji
-    zchar[
-
-3]
-tag
-
-    ,
-i8i8
-
-int , 
-}
-")).
-Eval vm_compute in ("<<<M1892>>>" ++ check (runes_of_ascii "packet Logon {
-    repeatCount {
-        BodyLength `crlf
-        line`,
-    },
-    zchar a1 `u8 x,`,
-    match Foo as Foo {
-        ""\n"" : i8i8,
-        [
-            ""abc"",
-            ""CRC32""
-        ] : crc,
-        [
-            3, ""x y"", 42, ""`tick`"", 1,
-            ""a\""b"", ""CRC32"", 255
-        ] : repeatCount,
-        [
-            1, 007, ""\n"", 007, 7,
-            ""// no comment"", 255
-        ] : uint8x,
-        00 : f32a,
-    },
-    // a // b
-    uint16 Pad @lengthOf(uint8x) `doc`,
-}")).
-Eval vm_compute in ("<<<M1777>>>" ++ check (runes_of_ascii "options {
-    float = char[]
-}// packet A { u8 x, }
-
-root packet Logon {
-    @tag(1)
-    // a // b
-    @calculatedFrom(""packet"")
-    zchar[3] Z9_,
-    @lengthOf(charz)
-    @calculatedFrom(""1"")
-    match roots as int {
-        ""a	b"" : MetaDataX,
-    },
-    @calculatedFrom(""a\""b"")
-    match asx as lengthOf {
-        """ ++ [128512]%N ++ runes_of_ascii """ : _x,
-        [255] : BodyLength,
-        3 : u8x,
-        0123456789 : T,
-    },
-    len @lengthOf(leftPad) `u8 x,`,
-}// @lengthOf(")).
-Eval vm_compute in ("<<<M256>>>" ++ check (runes_of_ascii "
-options // " ++ [27880; 37322]%N ++ runes_of_ascii "
-{ T = zchar[ 42
-] options1 = uint8 ;
-lengthOf
-=
-    // a // b
-    char[4294967296
-    ]
-    ; } packet Z9_ { repeat
-MetaDataX
-`crlf
-line`
-    ,
-repeat string x_y_z	,
-    u32 x
-, // `tick` ""quote"" 'q'
-@tag(
-// " ++ [128512]%N ++ runes_of_ascii " emoji
-// " ++ [128512]%N ++ runes_of_ascii " emoji
-00 )repeat i64 Logon ,
-u8x
-f32a, repeat
-    lengthOf``, repeat
-stringy Pad
-    // @lengthOf(
-    `
-`,
-    repeat
-    string_ chars `// not a comment` , }
-
-")).
-Eval vm_compute in ("<<<M235>>>" ++ check (runes_of_ascii "packet crc
-// a // b
-//x
-{	u128
-    packetx , // " ++ [128512]%N ++ runes_of_ascii " emoji
-match roots	as
-    //
-    falsey
-{ 0123456789 // a // b
-: Header ""packet""// a // b
-: // a // b
-Z9_	3 : A ,
-// trailing space 
-// a // b
-""a	b""  : roots 10
-:  _x
-, } , @tag( 255// a // b
-) match
-calculatedFrom  as	o {
-    255 : string_ """ ++ [28040; 24687]%N ++ runes_of_ascii """ : i64_
-,	} , }MetaData
-T
-{ float64 u	,} packet Pad { /// triple
-}
-")).
-Eval vm_compute in ("<<<M109>>>" ++ check (runes_of_ascii "MetaData Header{ } packet crc {	match zchar as leftPad // `tick` ""quote"" 'q'
-{ 7 : As 0 : Packet , [
-00 // " ++ [128512]%N ++ runes_of_ascii " emoji
-]
-: Pad ,
-//x
-//x
-""// no comment""
-    :
-    calculatedFrom
-,	3
-    :
-string_ , } ,falsey  packetx `crlf
-line` , // " ++ [27880; 37322]%N ++ runes_of_ascii "
-@tag( 42 )repeat
-u64 packetx,
-@calculatedFrom(  ""1"" ) repeat u16 calculatedFrom, }
-")).
-Eval vm_compute in ("<<<M262>>>" ++ check (runes_of_ascii "  packet  Logon
-    { o Header ,	Header
-, @lengthOf(
-u )	char[ 255 ] tag `tab	here`, char[]falsey ,
-    @lengthOf(	zchar )
-    @rightPad (
-) float roots// @lengthOf(
-,
-@calculatedFrom(	""// no comment"") i64
-u8x,
-} options { metadata = '0' ;_x = 4294967296 ; Packet
-    =
-    '0'
-;
+    // " ++ [128512]%N ++ runes_of_ascii " emoji
+    packet
+// `tick` ""quote"" 'q'
+/// triple
+float{options1 A
+,@tag(
+42 )
+    u8x{ tag //x
+@calculatedFrom(	""\" ++ [233]%N ++ runes_of_ascii """) // packet A { u8 x, }
+`tab	here` ,
     }
-
+    , int16 asx ,
+    @lengthOf( o
+    )
+@rightPad( ) repeat int
+/// triple
+/// triple
+Logon,@calculatedFrom(""// no comment"" )  @leftPad('\x00')
+    @rightPad('0'	)	zchar[ 65535 //x
+] o `
+`
+    ,
+    repeat As{ //x
+repeat uint16 o ,repeat
+char[ // trailing space 
+1
+    ]o ,
+u128
+metadata	, repeat char[7	] Header ,
+    } , @tag( 0123456789
+    ) a1 tag
+    , float32 asx ,
+    repeat // packet A { u8 x, }
+len
+``
+    ,}
 ")).
-Eval vm_compute in ("<<<M1274>>>" ++ check (runes_of_ascii "// top
-options
-    // c0
-{ // c1a
-  // c1b
-FixedStringPadFromLeft
-    // c2
-= // c3
-true
-    // c4
-; // c5a
-  // c5b
+Eval vm_compute in ("<<<M1342>>>" ++ check (runes_of_ascii "options {
+    LittleEndian = false;
+    ArrayPrefixLenType = u8;
+    FixedStringPadFromLeft = true;
+    FixedStringPadChar = '0';
 }
-    // c6
-root // c7
-packet P {
-    // c10
-char[ // c11a
-  // c11b
-4 // c12a
-  // c12b
-] z // c14
+packet Heartbeat {
+    string lastPx,
+    uint8 Qty,
+    i64 Acct,
+    char[4] Ref,
+}
+packet Fill {
+    uint8 Ref,
+    Heartbeat,
+    f32 OrderId,
+    repeat f32 x,
+}
+root packet Order {
+    zchar[2] OrderId,
+    zchar[2] Acct,
+    zchar[1] Note,
+    zchar[9] Qty,
+    string price,
+    string tag7,
+    u32 x,
+    match x as Body {
+        123 : Fill,
+        112 : Heartbeat,
+    },
+    u32 seqNo @calculatedFrom(""CRC32""),
+}
+")).
+Eval vm_compute in ("<<<M1349>>>" ++ check (runes_of_ascii "options {
+    ArrayPrefixLenType = u64;
+    FixedStringPadFromLeft = true;
+    FixedStringPadChar = '0';
+}
+packet Quote {
+}
+packet Ack {
+    repeat InNote66 {
+        u8 pad0,
+    },
+}
+packet Reject {
+}
+root packet Order {
+    Quote,
+    repeat Reject,
+    string venue,
+    string seqNo,
+    uint32 Ref,
+    u16 lastPx,
+    u32 clOrdID @lengthOf(Body),
+    match lastPx as Body {
+        190 : Reject,
+        186 : Quote,
+        22 : Ack,
+    },
+    u16 Flags @calculatedFrom(""CR\
+C32""),
+}
+")).
+Eval vm_compute in ("<<<M140>>>" ++ check (runes_of_ascii "
+root packet int{	repeat
+    float tag , char[] roots
+, @lengthOf( repeatCount ) @lengthOf( // packet A { u8 x, }
+rootA)
+uint16 o
+    `tab	here` ,
+    //	t
+    i16 Pad `line1
+line2` , Pad{match Pad as
+    _x
+{ [00]
+:
+    Z9_
+, } ,} , repeat zchar calculatedFrom`a\` ,	f64 // @lengthOf(
+charz
+    //x
+    ,Pad
+    Foo,@calculatedFrom(
+    """ ++ [28040; 24687]%N ++ runes_of_ascii """ )
+    charz
+    @lengthOf( charz ), @lengthOf(
+    rootA ) match o
+as body {00 :
+x_y_z// " ++ [128512]%N ++ runes_of_ascii " emoji
+} ,}
+")).
+Eval vm_compute in ("<<<M1331>>>" ++ check (runes_of_ascii "packet	Frame
+
+{  u8 HK 
+,  u8
+
+BK, u8
+    TK
+,match 
+HK as
+
+Hdr
+{	1
+
+    :
+    HdrA 
 ,
-    // c15
-} // c16a
-  // c16b
+
+2 : HdrB
+, },	match	BK
+as
+
+Body{  1	:
+
+    BodyA ,  2
+:
+
+    BodyB 
+,}
+	, 
+match
+
+    TK as Trl {
+	1 : TrlA
+
+,} , } packet HdrA { u8 a  ,
+}packet
+    HdrB 
+{ 
+u16
+    b
+	,  }packet BodyA{ u32 c ,
+}packet
+    BodyB
+	{
+
+    u64
+d , }
+    packet
+TrlA  {  u8
+e,} root
+	packet
+Msg
+
+{ Frame
+,
+    u8
+
+x,} ")).
+Eval vm_compute in ("<<<M106>>>" ++ check (runes_of_ascii "MetaData Pad
+    {
+    i16 repeatCount , // c
+f32 pack `a\`,} packet//
+f32a {@lengthOf( metadata // a // b
+)match msg_type as matchKey
+    {
+00: rootA ,  }, @rightPad ( ) match repeatCount as len {
+    [/// triple
+""x y""
+// c
+//
+,
+10] : As , 42: i64_""" ++ [128512]%N ++ runes_of_ascii """	: BodyLength
+, 7
+: f32a  ,
+    }
+    ,	@lengthOf( BodyLength )	repeat Foo `line1
+line2` , } // @lengthOf(")).
+Eval vm_compute in ("<<<M240>>>" ++ check (runes_of_ascii "
+packet BodyLength { repeatCount // packet A { u8 x, }
+`// not a comment`
+,
+@lengthOf( lengthOf	)  @tag( 65535
+    )@rightPad (
+// @lengthOf(
+//	t
+'0' )/// triple
+u8 Logon , } packet chars { o msg_type , @tag( 10)zchar[ 65535
+] f32a
+,repeat char[]
+i64_
+`
+` ,} root packet f32a { @tag( 255 )repeat u8 stringy, }
 ")).
-Eval vm_compute in ("<<<M1382>>>" ++ check (runes_of_ascii "packet Sub {
-    u8 a,
-    @calculatedFrom(""CRC16"") i32 SubSum,
-}
-root packet Frame {
-    u16 MsgType,
-    u16 BodyLen @lengthOf(Body),
-    Sub Body,
-    string note,
-    @calculatedFrom(""CRC16"") i32 Checksum,
-    u8 tail,
-}
-")).
-Eval vm_compute in ("<<<M92>>>" ++ check (runes_of_ascii "packet lengthOf { } root packet leftPad {  zchar[00// a // b
-]
-    Foo `` // c
-, @calculatedFrom( ""1"" )
-@leftPad (
-    ' '
-// trailing space 
-// " ++ [27880; 37322]%N ++ runes_of_ascii "
-)  @leftPad
-( ' ')
-repeat u8
-options1 , }")).
-Eval vm_compute in ("<<<M1542>>>" ++ check (runes_of_ascii "// top
-options {
-    // c1
-    LittleEndian = true;
-    // c5
+Eval vm_compute in ("<<<M1811>>>" ++ check (runes_of_ascii "MetaData T {
+    uint8 float,
+    repeatCount x,
+    char[10] asx,
+    char[00] metadata `" ++ [233]%N ++ runes_of_ascii "`,
+    u8x asx,
 }
 
-// c6
-root packet P {
-    u16 a,// c13
-    u32 Sum @calculatedFrom(""CRC32""),
+MetaData trueish {
+    charz string_ `crlf
+        line`,
+    zchar[42] _x,
+}
+
+packet o {
+    char[] u8x @calculatedFrom(""abc""),
+}
+
+options {
+    x = 255;
+    u = '0'
+}")).
+Eval vm_compute in ("<<<M1253>>>" ++ check (runes_of_ascii "// top
+packet // c0
+Inner // c1
+{ // c2
+u8 // c3a
+  // c3b
+a // c4
+,
+    // c5
+} // c6
+root // c7
+packet // c8a
+  // c8b
+P // c9
+{ // c10a
+  // c10b
+repeat // c11a
+  // c11b
+Inner items // c13
+, // c14
+u8
+    // c15
+x , // c17a
+  // c17b
+} // c18
+")).
+Eval vm_compute in ("<<<M1318>>>" ++ check (runes_of_ascii "packet FooBar // c1
+{ u8 a ,
+    // c5
+} // c6
+packet foo_bar // c8a
+  // c8b
+{
+    // c9
+u16
+    // c10
+b , // c12a
+  // c12b
+} // c13
+root // c14
+packet R { // c17a
+  // c17b
+FooBar ,
     // c19
-}// c20a
-// c20b")).
-Eval vm_compute in ("<<<M491>>>" ++ check (runes_of_ascii "packet uint8x
+foo_bar // c20
+, } ")).
+Eval vm_compute in ("<<<M1530>>>" ++ check (runes_of_ascii "packet FooBar {
+    u8 a,
+    // c5
+}// c6
+
+packet foo_bar {
+    // c9
+    u16 b,// c12a
+    // c12b
+}// c13
+
+root packet R {
+    // c17a
+    // c17b
+    FooBar,
+    // c19
+    foo_bar,
+}")).
+Eval vm_compute in ("<<<M1195>>>" ++ check (runes_of_ascii "// top
+packet
+    // c0
+body
+    // c1
+{
+    // c2
+i32
+    // c3
+f32a
+    // c4
+`{ , }`
+    // c5
+,
+    // c6
+}
+    // c7
+options
+    // c8
+{
+    // c9
+}
+    // c10
+")).
+Eval vm_compute in ("<<<M501>>>" ++ check (runes_of_ascii "packet uint8x
 { match pack
     as msg_type	{
     0123456789 :	float
@@ -989,256 +1106,284 @@ Eval vm_compute in ("<<<M491>>>" ++ check (runes_of_ascii "packet uint8x
 ,
 } packet //	t
 a1
-    { } options {packetx packetx
+    { } options {packetx
+    = '\x00' '\x00'	; u128= ""a	b""  ; }
+")).
+Eval vm_compute in ("<<<M1272>>>" ++ check (runes_of_ascii "
+options{
+LittleEndian=
+
+true; } packet
+	B	{
+u8 a
+
+    ,
+string  s, 
+}	root
+
+packet
+
+P
+
+{ u16
+    L
+    @lengthOf(
+
+    B
+)
+,
+B,
+    u8
+t ,  }")).
+Eval vm_compute in ("<<<M539>>>" ++ check (runes_of_ascii "packet uint8x
+{ match pack
+    as msg_type	{
+    0123456789 :	float
+}
+,
+} p" ++ [8232]%N ++ runes_of_ascii "acket //	t
+a1
+    { } options {packetx
     = '\x00'	; u128= ""a	b""  ; }
 ")).
-Eval vm_compute in ("<<<M1416>>>" ++ check (runes_of_ascii "packet A {
+Eval vm_compute in ("<<<M492>>>" ++ check (runes_of_ascii "packet uint8x
+{ match pack
+    as msg_type	{
+    0123456789 :	float
+}
+,
+} packet //	t
+a1
+    { } options {=
+    packetx '\x00'	; u128= ""a	b""  ; }
+")).
+Eval vm_compute in ("<<<M1794>>>" ++ check (runes_of_ascii "packet A {
     match k as n {
         [
             ""a"", ""bb"", ""c c"", ""d"", ""e"",
-            ""f"", ""g"", ""h"", ""i"", ""j""
+            ""f"", ""g"", ""h"", ""i""
         ] : B,
         2 : C,
     },
 }")).
-Eval vm_compute in ("<<<M542>>>" ++ check (runes_of_ascii "$ packet uint8x
-{ match pack
-    as msg_type	{
-    0123456789 :	float
-}
-,
-} packet //	t
-a1
-    { } options {packetx
-    = '\x00'	; u128= ""a	b""  ; }
-")).
-Eval vm_compute in ("<<<M442>>>" ++ check (runes_of_ascii "packet uint8x
-{ match pack
-    as msg_type	{
-    0123456789 :	}
-float
-,
-} packet //	t
-a1
-    { } options {packetx
-    = '\x00'	; u128= ""a	b""  ; }
-")).
-Eval vm_compute in ("<<<M468>>>" ++ check (runes_of_ascii "packet uint8x
-{ match pack
-    as msg_type	{
-    0123456789 :	float
-}
-,
-} packet //	t
-,
-    { } options {packetx
-    = '\x00'	; u128= ""a	b""  ; }
-")).
-Eval vm_compute in ("<<<M667>>>" ++ check (runes_of_ascii "// @lengthOf(
-packet i8i8 { u128 o char }
+Eval vm_compute in ("<<<M665>>>" ++ check (runes_of_ascii "// @lengthOf(
+packet i8i8 { u128 o , }
 options { MetaDataX = true;
+    BodyLength =""packet"" x_y_z= 007
+crc //x
+= ""abc"" ; ;
+    msg_type =
+i16 }")).
+Eval vm_compute in ("<<<M662>>>" ++ check (runes_of_ascii "// @lengthOf(
+packet i8i8 { u128 o , }
+{ options MetaDataX = true;
     BodyLength =""packet"" x_y_z= 007
 crc //x
 = ""abc"" ;
     msg_type =
 i16 }")).
-Eval vm_compute in ("<<<M1588>>>" ++ check (runes_of_ascii "packet A {
+Eval vm_compute in ("<<<M1705>>>" ++ check (runes_of_ascii "MetaData
+	leftPad
+    {chars MetaDataX 
+,} packet
+repeatCount {
+	char[255] 
+uint8x 	 // c
+  `" ++ [233]%N ++ runes_of_ascii "`
+    , }MetaData pack 
+{
+
+    As	Foo ,
+}
+")).
+Eval vm_compute in ("<<<M1707>>>" ++ check (runes_of_ascii "packet A {
     match k as n {
         [
-            1, ""bb"", 007, ""d"", 5,
-            ""f"", 7, ""h"", 9, ""j""
+            ""a"", ""bb"", ""c c"", ""d"", ""e"",
+            ""f""
         ] : B,
         2 : C,
     },
 }")).
-Eval vm_compute in ("<<<M688>>>" ++ check (runes_of_ascii "// @lengthOf(
+Eval vm_compute in ("<<<M1417>>>" ++ check (runes_of_ascii "packet A {
+    match k as n {
+        [
+            1, 22, ""c c"", 4, 5,
+            ""f""
+        ] : B,
+        2 : C,
+    },
+}")).
+Eval vm_compute in ("<<<M680>>>" ++ check (runes_of_ascii "// @lengthOf(
 packet i8i8 { u128 o , }
 options { MetaDataX = true;
     BodyLength =""packet"" x_y_z= 007
 crc //x
-= ""abc"" ;
-    msg_type =
-i16")).
-Eval vm_compute in ("<<<M714>>>" ++ check (runes_of_ascii "// @lengthOf(
-packet i8i8 { u128 o , }
-options { MetaDataX = true;
-    BodyLength =""packet"" x_y_z= 007
-crc //x
-= ""abc"" ;
-    msg_type")).
-Eval vm_compute in ("<<<M304>>>" ++ check (runes_of_ascii "packet
-    // " ++ [27880; 37322]%N ++ runes_of_ascii "
-    Logon {
-repeatCount @lengthOf( roots ) , @tag(0) repeat zchar[007] crc , rootA a1 `{ , }` , string_ `" ++ [233]%N ++ runes_of_ascii "`
-,  }
+= ""abc""")).
+Eval vm_compute in ("<<<M1167>>>" ++ check (runes_of_ascii "MetaData leftPad { chars MetaDataX , } packet repeatCount { char[ 255 ] // c
+uint8x `" ++ [233]%N ++ runes_of_ascii "` , } MetaData pack { As Foo , }")).
+Eval vm_compute in ("<<<M1663>>>" ++ check (runes_of_ascii "packet Foo {
+    tag roots,
+    // `tick` ""quote"" 'q'
+    i64_,
+    @calculatedFrom(""packet"")
+    uint32 MetaDataX,
+}")).
+Eval vm_compute in ("<<<M25>>>" ++ check (runes_of_ascii "packet stringy	{
+    } // packet A { u8 x, }
+packet
+    u128
+    { u16 len@lengthOf( u128)	,
+    //x
+    }
 ")).
-Eval vm_compute in ("<<<M1194>>>" ++ check (runes_of_ascii "// top
-packet // c0
-body // c1
-{ // c2
-i32 // c3
-f32a // c4
-`{ , }` // c5
-, // c6
-} // c7
-options // c8
-{ // c9
-} // c10
-")).
-Eval vm_compute in ("<<<M1161>>>" ++ check (runes_of_ascii "MetaData leftPad { chars MetaDataX , } packet repeatCount { // c
-char[ 255 ] uint8x `" ++ [233]%N ++ runes_of_ascii "` , } MetaData pack { As Foo , }")).
-Eval vm_compute in ("<<<M39>>>" ++ check (runes_of_ascii "options { o =
-    '\x00' // " ++ [128512]%N ++ runes_of_ascii " emoji
-; T = u32 ; msg_type
-// `tick` ""quote"" 'q'
-//
-= ""a	b""  a1 = '\x00'
-}
-// " ++ [128512]%N ++ runes_of_ascii " emoji
-")).
-Eval vm_compute in ("<<<M915>>>" ++ check (runes_of_ascii "packet A {
+Eval vm_compute in ("<<<M898>>>" ++ check (runes_of_ascii "packet A {
   match k as n {
-    [""a"", ""bb"", 007, ""d"", ""e"", 66, ""g"", ""h"", 9, ""j"", ""k"", 12] : B
+    [""a"", 22, ""c c"", 4, ""e"", 66, ""g"", 8, ""i"", 10, ""k""] : B
     2 : C
   },
 }")).
-Eval vm_compute in ("<<<M1278>>>" ++ check (runes_of_ascii "  options{ 
-LittleEndian =	true
-	; } root	packet
-	P {	u16  a ,u32 
-Sum
-@calculatedFrom(
-""CRC32""  )	, }
+Eval vm_compute in ("<<<M634>>>" ++ check (runes_of_ascii "
+packet
+    asx {matc@lengthOfh u128 as lengthOf
+{
+//	t
+// `tick` ""quote"" 'q'
+255 : x ,
+    } ,	}")).
+Eval vm_compute in ("<<<M573>>>" ++ check (runes_of_ascii "
+packet
+    asx {match u128 u128 as lengthOf
+{
+//	t
+// `tick` ""quote"" 'q'
+255 : x ,
+    } ,	}")).
+Eval vm_compute in ("<<<M563>>>" ++ check (runes_of_ascii "
+packet
+    asx { {match u128 as lengthOf
+{
+//	t
+// `tick` ""quote"" 'q'
+255 : x ,
+    } ,	}")).
+Eval vm_compute in ("<<<M281>>>" ++ check (runes_of_ascii "
+packet
+    o	{  }
+packet
+Pad {
+BodyLength // trailing space 
+, } packet metadata //x
+{}")).
+Eval vm_compute in ("<<<M1882>>>" ++ check (runes_of_ascii "
 
-")).
-Eval vm_compute in ("<<<M484>>>" ++ check (runes_of_ascii "packet uint8x
-{ match pack
-    as msg_type	{
-    0123456789 :	float
+  packet A {match  k
+as
+
+n
+{
+[
+
+    ""a"",
+22
+, ""c c"", 4
+, ""e"" ]
+	:B
+
+2 : C
 }
 ,
-} packet //	t
-a1
-    { }")).
-Eval vm_compute in ("<<<M905>>>" ++ check (runes_of_ascii "packet A {
-  match k as n {
-    [1, 22, 007, 4, 5, 66, 7, 8, 9, 10, 11, 12] : B
-    2 : C
-  },
-}")).
-Eval vm_compute in ("<<<M717>>>" ++ check (runes_of_ascii "// @lengthOf(
-packet i8i8 { u128 o , }
-options { MetaDataX = true;
-    BodyLength =""packet"" ")).
-Eval vm_compute in ("<<<M640>>>" ++ check (runes_of_ascii "
+
+}
+
+")).
+Eval vm_compute in ("<<<M567>>>" ++ check (runes_of_ascii "
 packet
-    asx {match u128 as lengthOf
+    asx { u128 as lengthOf
 {
 //	t
 // `tick` ""quote"" 'q'
-$255 : x ,
+255 : x ,
     } ,	}")).
-Eval vm_compute in ("<<<M602>>>" ++ check (runes_of_ascii "
-packet
-    asx {match u128 as lengthOf
+Eval vm_compute in ("<<<M1305>>>" ++ check (runes_of_ascii "packet orderItem {
+    u8 a,
+}
+root packet newOrder {
+    orderItem,
+    u8 x,
+}
+")).
+Eval vm_compute in ("<<<M817>>>" ++ check (runes_of_ascii "packet A {
+  match k as n {
+    [1, ""bb"", 007, ""d"", 5] : B,
+    2 : C
+  },
+}")).
+Eval vm_compute in ("<<<M813>>>" ++ check (runes_of_ascii "packet A {
+  match k as n {
+    [1, 22, 007, 4, 5] : B,
+    2 : C
+  },
+}")).
+Eval vm_compute in ("<<<M791>>>" ++ check (runes_of_ascii "packet A {
+  match k as n {
+    [1, ""bb"", 007] : B,
+    2 : C
+  },
+}")).
+Eval vm_compute in ("<<<M534>>>" ++ check (runes_of_ascii "packet uint8x
+{ match pack
+    as msg_type	{
+    0123456789 :	")).
+Eval vm_compute in ("<<<M1287>>>" ++ check (runes_of_ascii "root packet P {
+    repeat string ss,
+    repeat u16 ns,
+}
+")).
+Eval vm_compute in ("<<<M148>>>" ++ check (runes_of_ascii "options
 {
-//	t
-// `tick` ""quote"" 'q'
-255 :  ,
-    } ,	}")).
-Eval vm_compute in ("<<<M865>>>" ++ check (runes_of_ascii "packet A {
-  match k as n {
-    [1, 22, 007, 4, 5, 66, 7, 8, 9] : B,
-    2 : C
-  },
-}")).
-Eval vm_compute in ("<<<M748>>>" ++ check (runes_of_ascii "options match @lengthOf( options char[] zchar[ MetaData f32 f64 u16 ""{,}"" `doc` (")).
-Eval vm_compute in ("<<<M269>>>" ++ check (runes_of_ascii "options
-{ Z9_ ='\x00'  } packet trueish
-{ // " ++ [128512]%N ++ runes_of_ascii " emoji
-u16 calculatedFrom
-, }")).
-Eval vm_compute in ("<<<M804>>>" ++ check (runes_of_ascii "packet A {
-  match k as n {
-    [1, ""bb"", 007, ""d""] : B,
-    2 : C
-  },
-}")).
-Eval vm_compute in ("<<<M1559>>>" ++ check (runes_of_ascii "MetaData
-	M
-	{u8
-    x `a
-    b
-  c`
-, 
-T
-
-    t
-
-`a
-    b
-  c`,} ")).
-Eval vm_compute in ("<<<M781>>>" ++ check (runes_of_ascii "packet A {
-  match k as n {
-    [""a"", ""bb""] : B
-    2 : C
-  },
-}")).
-Eval vm_compute in ("<<<M1527>>>" ++ check (runes_of_ascii "packet msg_type {
-    repeat zchar[007] Logon `two words`,
-}")).
-Eval vm_compute in ("<<<M764>>>" ++ check (runes_of_ascii "float32 true uint8 f32 i64 i32 @leftPad ) char[ } uint8")).
-Eval vm_compute in ("<<<M1208>>>" ++ check (runes_of_ascii "packet body { i32 f32a
+    a1	=""packet""// a // b
+; } // @lengthOf(")).
+Eval vm_compute in ("<<<M1212>>>" ++ check (runes_of_ascii "packet body { i32 f32a `{ , }` ,
 // c
-`{ , }` , } options { }")).
-Eval vm_compute in ("<<<M1737>>>" ++ check (runes_of_ascii "MetaData _x {
-    i64 u128,
-    Packet Header,
-}")).
-Eval vm_compute in ("<<<M1095>>>" ++ check (runes_of_ascii "packet A { char[ // a
- 3 // b
- ] // c
- x, }")).
+} options { }")).
+Eval vm_compute in ("<<<M347>>>" ++ check (runes_of_ascii "packet As{
+/// triple
+// packet A { u8 x, }
+}
+
+")).
+Eval vm_compute in ("<<<M1773>>>" ++ check (runes_of_ascii "options {
+    a1 = ""packet"";
+}// @lengthOf(")).
 Eval vm_compute in ("<<<M1075>>>" ++ check (runes_of_ascii "MetaData M {
 }// c
 MetaData N {
 }// d")).
-Eval vm_compute in ("<<<M1507>>>" ++ check (runes_of_ascii "
-root packet
-P
-	{ string
-s ,
-}")).
-Eval vm_compute in ("<<<M586>>>" ++ check (runes_of_ascii "
+Eval vm_compute in ("<<<M1774>>>" ++ check (runes_of_ascii "  packet Z9_	{	}
+
 packet
-    asx {match u128 as")).
-Eval vm_compute in ("<<<M917>>>" ++ check (runes_of_ascii "packet A {
-    u8 x `a
-b`,
+Pad
+{  }")).
+Eval vm_compute in ("<<<M988>>>" ++ check (runes_of_ascii "packet A {
+ u8 x `d" ++ [160]%N ++ runes_of_ascii "`, // c" ++ [160]%N ++ runes_of_ascii "
 }")).
-Eval vm_compute in ("<<<M1460>>>" ++ check (runes_of_ascii "
-// c
-    packet x{ 
-}")).
-Eval vm_compute in ("<<<M1629>>>" ++ check (runes_of_ascii "packet Packet
+Eval vm_compute in ("<<<M1486>>>" ++ check (runes_of_ascii "
 
-{
+  packet A { }
+	    // c" ++ [5760]%N)).
+Eval vm_compute in ("<<<M268>>>" ++ check (runes_of_ascii " // packet A { u8 x, }")).
+Eval vm_compute in ("<<<M1706>>>" ++ check (runes_of_ascii "packet
+
+    A
+{ } ")).
+Eval vm_compute in ("<<<M744>>>" ++ check (runes_of_ascii "`" ++ [28040; 24687; 31867; 22411]%N ++ runes_of_ascii "` '0' options")).
+Eval vm_compute in ("<<<M1056>>>" ++ check (runes_of_ascii "packet A {
 }
-
-")).
-Eval vm_compute in ("<<<M1956>>>" ++ check (runes_of_ascii "
-
-  packet 
-o
-	{}
-
-")).
-Eval vm_compute in ("<<<M1039>>>" ++ check (runes_of_ascii "packet A {
-}// c 	")).
-Eval vm_compute in ("<<<M1049>>>" ++ check (runes_of_ascii "packet A {
-}// c" ++ [65279]%N)).
+// c" ++ [6158]%N)).
+Eval vm_compute in ("<<<M1226>>>" ++ check (runes_of_ascii "packet // c
+x { }")).
 Eval vm_compute in ("<<<M99>>>" ++ check (runes_of_ascii "
  // " ++ [128512]%N ++ runes_of_ascii " emoji")).
-Eval vm_compute in ("<<<M985>>>" ++ check (runes_of_ascii "// c" ++ [160]%N)).
-Eval vm_compute in ("<<<M19>>>" ++ check (runes_of_ascii "
-")).
+Eval vm_compute in ("<<<M980>>>" ++ check (runes_of_ascii "// c" ++ [12288]%N)).
+Eval vm_compute in ("<<<M745>>>" ++ check ([65533]%N ++ runes_of_ascii "1")).
